@@ -60,7 +60,7 @@ func (e *c03Env) genFrameOpts(t *rapid.T, f *c03Flow, reverse bool) c03FrameOpts
 	o.Reverse = reverse
 	if f.TCP {
 		kinds := []uint8{ksTCPSyn, ksTCPSyn | ksTCPAck, ksTCPAck, ksTCPAck | 0x08, ksTCPAck, ksTCPFin | ksTCPAck, ksTCPRst, ksTCPRst | ksTCPAck}
-		if !f.Tracked && !reverse {
+		if (!f.Tracked || e.aimProc) && !reverse {
 			kinds = append(kinds, ksTCPSyn, ksTCPSyn, ksTCPSyn)
 		}
 		if reverse {
@@ -87,10 +87,8 @@ func (e *c03Env) genFrameOpts(t *rapid.T, f *c03Flow, reverse bool) c03FrameOpts
 	switch rapid.IntRange(0, 19).Draw(t, "shape") {
 	case 0:
 		o.FragOff = uint16(rapid.SampledFrom([]int{1, 2, 185, 8191}).Draw(t, "fragoff"))
-	case 1:
-		if f.V6 {
-			o.FragHdr = true
-		}
+	case 1, 3:
+		o.FragHdr = true // first fragment, in both size classes (the payload decides)
 	case 2:
 		o.Cut = rapid.IntRange(1, 110).Draw(t, "cut")
 	}
@@ -164,8 +162,23 @@ func (e *c03Env) forwardOne(t *rapid.T, f *c03Flow) {
 		} else {
 			e.class("frame_short_slowpath")
 		}
-		if len(f.Exts) > 0 || o.FragHdr {
+		if len(f.Exts) > 0 || (o.FragHdr && f.V6) {
 			e.class("frame_v6_exthdrs")
+		}
+		if o.FragHdr {
+			e.class(map[bool]string{true: "frame_first_fragment_ge128", false: "frame_first_fragment_short"}[len(frame) >= 128])
+		}
+		if e.aimProc && !f.lanSide() {
+			if f.Registered {
+				e.class("wan_frame_known_process")
+				e.lastWanKnown = true
+			} else {
+				e.class("wan_frame_unknown_process")
+				if e.lastWanKnown {
+					e.class("wan_unknown_process_right_after_known")
+				}
+				e.lastWanKnown = false
+			}
 		}
 	}
 	out := e.run(desc, prog, in)
@@ -381,10 +394,11 @@ func c03KVs(kv []ksKV) string {
 	return b.String()
 }
 
-func c03History(t *rapid.T, unit string) {
+func c03History(t *rapid.T, unit string, aimProc bool) {
 	k := ksGet(t)
 	k.Reset()
 	e := c03NewEnv(t, k)
+	e.aimProc = aimProc
 	e.connMax = c03MapInfo(k, "conn_state_map").MaxEntries
 	e.lanL2, e.wanL2 = rapid.IntRange(0, 3).Draw(t, "lan_l3") > 0, rapid.IntRange(0, 3).Draw(t, "wan_l3") > 0
 	sockMark := uint32(0)
@@ -401,7 +415,12 @@ func c03History(t *rapid.T, unit string) {
 	}
 	globalNextLpmIndex.Store(uint32(rapid.IntRange(0, 1023).Draw(t, "ring_start")))
 	e.setup(rapid.Bool().Draw(t, "redirect_peer"), sockMark, rapid.Bool().Draw(t, "has_task_helper"))
-	e.installProgram(vrGenProgram(t, vrOpts{MaxRules: 8}), true)
+	if aimProc {
+		// rules dominated by pname() conditions (positive and negated) next to a few others
+		e.installProgram(vrGenProgram(t, vrOpts{MaxRules: 6, Funcs: []string{"pname", "pname", "pname", "dport", "l4proto", "dip"}}), true)
+	} else {
+		e.installProgram(vrGenProgram(t, vrOpts{MaxRules: 8}), true)
+	}
 	c03GenFlows(t, e)
 	// weights through repeated keys (rapid picks the key uniformly)
 	acts := map[string]func(*rapid.T){"conn": e.actConnectivity, "rules": e.actRules, "domain": e.actDomain}
@@ -480,5 +499,12 @@ func c03MapInfo(k *ksSim, name string) ksMapInfo {
 }
 
 func TestC03_History(t *testing.T) {
-	rapid.Check(t, func(t *rapid.T) { c03History(t, c03Unit) })
+	rapid.Check(t, func(t *rapid.T) { c03History(t, c03Unit, false) })
+}
+
+// Histories aimed at the process-name input of the WAN-egress hook: sockets of known
+// processes and sockets nobody registered, back to back, under pname()-heavy rules
+// ("a process name only when one is known").
+func TestC03_ProcessNames(t *testing.T) {
+	rapid.Check(t, func(t *rapid.T) { c03History(t, "C03.procname", true) })
 }
